@@ -33,6 +33,8 @@ def build_pool(seed, n=60):
                      'compress': bool(k & 1), 'dicts': k != 1})
     pool.append({'src': 'addi x1, x0, dec + 1\n', 'compress': False, 'dicts': False})
     pool.append({'src': 'ADC = 3\nfee:\naddi x1, x0, ADC + 1\nj fee\n', 'compress': True, 'dicts': True})
+    # text with backslashes that are no escapes (Python itself warns about those: process-wide warning state must not matter)
+    pool.append({'src': 'string 50\\% off\nalign 2\nK9 = 1 + 2\naddi x1, x0, K9\nstring a\\qb \\d\nalign 2\n', 'compress': False, 'dicts': True})
     # same label / constant names, different values
     while len(pool) < n - 6:
         items = randprog.gen(rng, dict(n=(3, 25), labels=(1, 4)))
